@@ -17,7 +17,7 @@ EXPLANATION = ("Bounded symbolic execution (CrossHair/z3) of the real start_at/i
                "transition from a healthy state, or (None kinds) is offered the event as the current state. Oracle: HsmTopologyException "
                "is raised, without a hang, and no state outside the path to X was entered before it.")
 RULE = "one case per (depth of X, malformation kind, route, implicit-action mask); all are non-trivial"
-LIM = {"quick": dict(D=4, hxs=(0,)), "thorough": dict(D=6, hxs=(0, 7))}
+LIM = {"quick": dict(D=4, hxs=(0,), ZD=6), "thorough": dict(D=6, hxs=(0, 7), ZD=10)}
 KINDS = ["init-to-self", "init-to-parent", "init-to-sibling", "init-to-other-branch", "none-for-event", "none-for-all"]
 ROUTES = ["start_at-D", "start_at-ancestor-init-into-D", "transition-into-D", "event-offered-to-D", "transition-into-ancestor-whose-init-targets-D"]
 DESTS = ["X", "child-of-X"]
@@ -26,7 +26,8 @@ DESTS = ["X", "child-of-X"]
 def bounds(tier):
   d = dict(LIM[tier])
   d["meaning"] = ("D = max depth of the faulty state X; kinds=%s; routes=%s; destination D = %s; deep = the current state is a child of the "
-                  "transition's source state" % (KINDS, ROUTES, DESTS))
+                  "transition's source state; ZD = extra nesting of the wrong target of an init-to-other-branch (its depth is 2 + zd); nm = an ancestor of that "
+                  "wrong target is a different function with the same __name__ as X" % (KINDS, ROUTES, DESTS))
   return d
 
 
@@ -48,10 +49,14 @@ def pre(v, lim):
     return False          # offering an event to X does not take X's initial transition
   if deep and route not in (2, 4):
     return False          # only transitions have a source state
+  if v["zd"] > lim["ZD"] or (v["zd"] and (kind != 3 or v["hx"] != 0 or d > 2)):
+    return False          # a deeply nested wrong target: only for 'init-to-other-branch', with a shallow X
+  if v["nm"] and kind != 3:
+    return False          # an ancestor of the wrong target that is called like X: only where the wrong target has ancestors of its own
   return True
 
 
-def case(d, kind, route, dest, deep, hx):
+def case(d, kind, route, dest, deep, hx, zd=0, nm=0):
   from miros.hsm import HsmEventProcessor, HsmTopologyException
 
   # chain 0..d-1, X = d-1; C child of X; Y sibling of X; Z, Z2 another branch; H a healthy root state, H2 its child
@@ -61,6 +66,8 @@ def case(d, kind, route, dest, deep, hx):
   parent.append(parent[X]); Y = len(parent) - 1
   parent.append(-1); Z = len(parent) - 1
   parent.append(Z); Z2 = len(parent) - 1
+  for _ in range(zd):            # the wrong target sits zd levels further down its own branch
+    parent.append(Z2); Z2 = len(parent) - 1
   parent.append(-1); H = len(parent) - 1
   parent.append(H); H2 = len(parent) - 1
   n = len(parent)
@@ -86,7 +93,10 @@ def case(d, kind, route, dest, deep, hx):
     react[H] = D
   if route == 4:
     react[H] = 0
-  ch = charts.Chart(parent, react, init, hx=hx, none_for=none_for, call_limit=400)
+  names = ["s%d" % i for i in range(n)]
+  if nm:
+    names[Z] = names[X]          # two different state functions with the same __name__ (components built by one factory)
+  ch = charts.Chart(parent, react, init, hx=hx, none_for=none_for, call_limit=400, names=names)
 
   class CountingHost(HsmEventProcessor):
     def top(self, *args):
@@ -101,7 +111,8 @@ def case(d, kind, route, dest, deep, hx):
     cur = D if route == 3 else (H2 if deep else H)
     c.state.fun = ch.hs[cur]
     c.temp.fun = ch.hs[cur]
-  what = "%s via %s, destination %s, depth of X %d%s" % (KINDS[kind], ROUTES[route], DESTS[dest], d, ", current state below the source" if deep else "")
+  what = "%s via %s, destination %s, depth of X %d%s%s%s" % (KINDS[kind], ROUTES[route], DESTS[dest], d, ", current state below the source" if deep else "",
+                                                        ", wrong target %d levels deep" % (2 + zd) if zd else "", ", an ancestor of the wrong target is named like X" if nm else "")
   rname = "start" if route < 2 else "dispatch"
   try:
     if route == 0:
@@ -123,7 +134,7 @@ def case(d, kind, route, dest, deep, hx):
   return FAIL("no-exception:%s:%s:%s" % (KINDS[kind], ROUTES[route], DESTS[dest]) + (":deep" if deep else ""), "%s: returned normally, log %s" % (what, ch.log))
 
 
-Family(globals(), "h_malformed", params=[("d", 1, 6), ("kind", 0, 5), ("route", 0, 4), ("dest", 0, 1), ("deep", 0, 1), ("hx", 0, 7)],
+Family(globals(), "h_malformed", params=[("d", 1, 6), ("kind", 0, 5), ("route", 0, 4), ("dest", 0, 1), ("deep", 0, 1), ("hx", 0, 7), ("zd", 0, 10), ("nm", 0, 1)],
        pre=pre, case=case, split=["hx"], tiers=LIM)
 
 
